@@ -220,6 +220,29 @@ def run(ctx):
         ctx.count("multi-output-runs")
         if len(out) > 1:
             ctx.nontriv("multi:" + str(argv))
+    # long reads (tens of kilobases, as long-read instruments produce them) in a small, well-compressible file: the same records from every
+    # input container, with one core and with several
+    for _ in range(ctx.scale(1, 6)):
+        unit = pipe.rs(rng, 50)
+        long_reads = [(f"L{i}", (pipe.rs(rng, 37) + unit * rng.randint(900, 1500)), None) for i in range(3)]
+        short = [(f"s{i}", pipe.rs(rng, rng.randint(30, 80)), None) for i in range(rng.randint(20, 60))]
+        recs = [(n_, s_, "I" * len(s_)) for n_, s_, _ in short[:10] + long_reads[:1] + short[10:] + long_reads[1:]]
+        text = clirun.fastq(recs)
+        exp = [(n_, s_[5:]) for n_, s_, _ in recs]
+        for cont in rng.sample(["", ".gz", ".bz2", ".xz"], 3):
+            for cores in (1, rng.choice([2, 4])):
+                res, out = run_one(["-u", "5", "-o", "{dir}/o.fastq", "{dir}/in.fastq" + cont], {"in.fastq" + cont: compress(text, cont) if cont else text}, cores)
+                ctx.evaluations += 1
+                ctx.count("long-reads-runs")
+                cell = dict(long_reads=True, input_container=cont or "plain", cores=cores, read_lengths=sorted({len(s_) for _, s_, _ in recs})[-3:])
+                if res.status != 0:
+                    ctx.failures.append(Failure("C19/long-reads-run-failed", "a file with long reads is processed from one container / core count but fails from another",
+                                                cell, res.stderr[-300:], 0))
+                    continue
+                got = [(a, b) for a, b, _ in clirun.parse_fastx(out.get("o.fastq", ""))]
+                if got != exp:
+                    ctx.failures.append(Failure("C19/records-differ", "records of a long-read file differ between containers / core counts", cell,
+                                                [(a, len(b)) for a, b in got][:5], [(a, len(b)) for a, b in exp][:5]))
     # standard output: `--fasta` forces FASTA, otherwise the input format; single-end and interleaved, one core and two
     import os
     import subprocess
